@@ -274,8 +274,12 @@ def run_operator_case(case, ctx):
         pairs = [("ufunc.reduce", lambda: ufunc.reduce(a, axis=axis, **extra)),
                  ("numpoly", lambda: getattr(numpoly, target)(a, axis=axis, **extra)),
                  ("numpy", lambda: getattr(numpy, target)(a, axis=axis, **extra))]
-        if kind == "add":
-            pairs.append(("method", lambda: a.sum(axis=axis, **extra)))
+        # ... and the method of the same name where ndpoly has one
+        method = {"add": "sum", "multiply": "prod", "logical_and": "all", "logical_or": "any",
+                  "maximum": "max", "minimum": "min"}[kind]
+        pairs.append(("method", lambda: getattr(a, method)(axis=axis, **extra)))
+        if axis is None and not extra:
+            pairs.append(("method()", lambda: getattr(a, method)()))
     elif case["form"] == "out":
         facts["out_kind"] = case["out_kind"]
         pairs = out_pairs(numpoly, kind, (a,) if b is None else (a, b), case["out_kind"])
@@ -420,7 +424,14 @@ def run_operators(spec, ctx):
             shape = C.nd_shape(g, mindim=1)
             const = case["op"] in ("logical_and", "logical_or")
             if case["op"] == "multiply":
-                case["a"] = g.poly(shape=shape, kind=kind, nterms=2, maxexp=1, names=["q0", "q1"])
+                case["a"] = g.poly(shape=shape, kind=kind, nterms=2, maxexp=1,
+                                   names=rng.choice([["q0", "q1"], ["q1", "q2"], ["q2"]]))
+                if rng.random() < 0.3:
+                    case["a"]["dtype"] = rng.choice(["float32", "float16"] if kind == "float"
+                                                    else ["uint16", "uint64", "int16", "uint8"])
+                    if case["a"]["dtype"].startswith("u"):
+                        case["a"]["coefs"] = [G.nested_map(lambda v: abs(v) if not isinstance(v, dict) else v, c)
+                                              for c in case["a"]["coefs"]]
             else:
                 case["a"] = (cg if const else g).poly(shape=shape, kind=kind)
             case["axis"] = rng.choice(list(range(len(shape))) + [None, -1])
